@@ -152,7 +152,9 @@ pub struct Avoid {
 }
 
 pub const FLOAT_TEXTS: &[&str] = &["0.0", "1.5", "-2.25", "1.", "0.1e-7", "3.0E+2", "1.0e308", "123456789012345678901234567890.0", "1.0e309", "-1.0e999"];
-pub const INT_TEXTS: &[&str] = &["0", "1", "-1", "42", "9223372036854775807", "-9223372036854775808", "007"];
+pub const INT_TEXTS: &[&str] = &[
+    "0", "1", "-1", "42", "9223372036854775807", "-9223372036854775808", "007", "9223372036854775808", "-9223372036854775809", "99999999999999999999",
+];
 pub const STR_DEFAULTS: &[&str] = &["", "abc", "two words", "日本", "a\\\"b", "%_", "it's", "'", "x' OR '1'='1"];
 pub const JSON_DEFAULTS: &[&str] = &["{}", "[]", "{\\\"a\\\":1}", "[1,\\\"x\\\"]"];
 pub const B64_DEFAULTS: &[&str] = &["", "emV0", "AAAAAAAAAAAAAAAAAAAAAA"];
@@ -268,7 +270,7 @@ pub fn resolve_model(m: &ModelSpec) -> RModel {
                     Modif::Default(d) => {
                         let d = d as usize;
                         let dv: Option<String> = match ty {
-                            Ty::Integer => Some(INT_TEXTS[d % INT_TEXTS.len()].to_string()),
+                            Ty::Integer => Some(INT_TEXTS[d % 7].to_string()),
                             Ty::Float => {
                                 let mut t = FLOAT_TEXTS[d % FLOAT_TEXTS.len()];
                                 if crate::shared::has_non_finite_float(t) {
@@ -541,7 +543,8 @@ pub fn good_kind(ty: Ty, nullable: bool, salt: u8) -> PKind {
         return PKind::Null;
     }
     match ty {
-        Ty::Integer => PKind::Int(salt % 6),
+        // one in sixteen: an integer literal that does not fit (an error path of the parsers)
+        Ty::Integer => PKind::Int(if salt % 16 == 15 { 7 + salt % 3 } else { salt % 6 }),
         Ty::Float => {
             if salt % 3 == 0 {
                 PKind::Int(salt % 4)
